@@ -1,0 +1,35 @@
+//go:build verif
+
+// Contracts for contract-based deductive verification (govc, /verif).
+// This file contains comments only; it adds no code to the package.
+
+package pingpong
+
+//@ # ---- C37: no message from the remote peer makes the ping protocol panic ----------------------
+//@ extern func (github.com/gauss-project/aurorafs/pkg/p2p/protobuf.Reader).ReadMsgWithContext
+//@   assigns target(msg)
+//@ extern func (github.com/gauss-project/aurorafs/pkg/p2p/protobuf.Writer).WriteMsgWithContext
+//@   assigns nothing
+//@ extern func github.com/gauss-project/aurorafs/pkg/p2p/protobuf.NewWriterAndReader
+//@   assigns nothing
+//@ extern func (github.com/gauss-project/aurorafs/pkg/p2p.Stream).FullClose
+//@   assigns nothing
+//@ extern func (github.com/gauss-project/aurorafs/pkg/p2p.Streamer).NewStream
+//@   ensures result1 == nil ==> result0 != nil
+//@   assigns nothing
+//@ # (a nil *Tracer falls back to the no-op tracer; span and logger are never nil)
+//@ extern func (*github.com/gauss-project/aurorafs/pkg/tracing.Tracer).StartSpanFromContext
+//@   ensures result0 != nil && result1 != nil
+//@   assigns nothing
+
+//@ spec func serviceOK(s *Service) bool = s != nil && s.streamer != nil && s.logger != nil && s.metrics.PingSentCount != nil && s.metrics.PongSentCount != nil && s.metrics.PingReceivedCount != nil && s.metrics.PongReceivedCount != nil
+
+//@ func (*Service).handler
+//@   property C37
+//@   requires serviceOK(s) && stream != nil
+//@   loop 1 invariant serviceOK(s)
+
+//@ func (*Service).Ping
+//@   property C37
+//@   requires serviceOK(s)
+//@   loop 1 invariant serviceOK(s) && 0 - 1 <= rangeindex && rangeindex < len(msgs)
